@@ -235,6 +235,51 @@ func (w *World) genVCs(fn *ssa.Function, useH bool, dropped, hcount map[string]b
 
 // frameObligations: everything not named in `modifies` is unchanged for pre-existing objects.
 func (c *Ctx) frameObligations(ct *Contract, names calleeNames, args []Val, out *State, rr string) {
+	c.groupedFrame("frame", "", ct, names, args, out, rr, c.root.Pos(), "only the locations in `modifies` change")
+}
+
+// groupedFrame emits ONE obligation for the conjunction of all per-component frame conditions (they are almost always
+// discharged together in one query); the per-component obligations are kept as Parts and are solved one by one only when
+// the group is not discharged, so that a failure still names the component.
+func (c *Ctx) groupedFrame(kind, detailPfx string, ct *Contract, names calleeNames, args []Val, st *State, reach string, pos token.Pos, what string) {
+	var parts []Obl
+	var conds []string
+	mark := len(c.obls)
+	nasm := len(c.asms)
+	c.frameConds(ct, names, args, st, func(detail, cond, expr string, _ string) {
+		// record as individual obligation objects without assuming them one by one
+		c.oblige(kind, detailPfx+detail, reach, cond, pos, expr)
+		conds = append(conds, cond)
+	})
+	if len(c.obls) == mark {
+		return
+	}
+	parts = append(parts, c.obls[mark:]...)
+	// the parts were generated with growing assumption prefixes (each assumes the previous ones); as parts of a group they
+	// are all checked under the assumptions that held before the group
+	for i := range parts {
+		parts[i].NAsm = nasm
+		parts[i].NDecl = len(c.decls)
+	}
+	c.obls = c.obls[:mark]
+	if len(parts) == 1 {
+		c.obls = append(c.obls, parts[0])
+		return
+	}
+	g := parts[0]
+	g.Name = fmt.Sprintf("%s#%s:%sall@%d", fnName(c.root), kind, detailPfx, c.ordinal["group|"+kind])
+	c.ordinal["group|"+kind]++
+	g.Cond = and(conds...)
+	g.Expr = fmt.Sprintf("%s (%d components)", what, len(parts))
+	g.Parts = parts
+	g.NDecl = len(c.decls)
+	c.obls = append(c.obls, g)
+}
+
+// frameConds enumerates, for every heap component / element memory that differs from the entry state, the condition
+// "outside the locations named in `modifies` it equals the entry state". emit receives the obligation form (a select at a
+// fresh index) and the equational form (post == entry updated at the modified locations), used as a loop-head assumption.
+func (c *Ctx) frameConds(ct *Contract, names calleeNames, args []Val, out *State, emit func(detail, cond, expr, eqForm string)) {
 	env := &CEnv{c: c, st: c.entryState, old: c.entryState, lookup: mkLookup(names, args, nil), pkg: names.pkg}
 	var locs []modLoc
 	for _, m := range ct.Modifies {
@@ -288,7 +333,11 @@ func (c *Ctx) frameObligations(ct *Contract, names calleeNames, args []Val, out 
 		}
 		rk := c.fresh("frk", "Int")
 		cond := fmt.Sprintf("(=> (and (>= %s 0) (<= %s top0)) (= (select %s %s) (select %s %s)))", rk, rk, post, rk, exp, rk)
-		c.oblige("frame", k, rr, cond, c.root.Pos(), "only the locations in `modifies` change: component "+k)
+		// equational form restricted to pre-existing objects is not expressible without a quantifier; objects allocated
+		// later (ref > top0) are fresh and unconstrained either way, so the whole-array equation is used only when no
+		// allocation happens in the loop (checked by the caller through the obligation form on the back edge)
+		eq := fmt.Sprintf("(forall ((q_fr Int)) (! (=> (and (>= q_fr 0) (<= q_fr top0)) (= (select %s q_fr) (select %s q_fr))) :pattern ((select %s q_fr))))", post, exp, post)
+		emit(k, cond, "only the locations in `modifies` change: component "+k, eq)
 	}
 	mkeys := sortedKeys(out.mem)
 	for _, k := range mkeys {
@@ -333,7 +382,8 @@ func (c *Ctx) frameObligations(ct *Contract, names calleeNames, args []Val, out 
 		}
 		rk := c.fresh("fmk", "Int")
 		cond := fmt.Sprintf("(=> (and (>= %s 0) (<= %s (+ (* 4096 top0) 4095))) (= (select %s %s) (select %s %s)))", rk, rk, post, rk, exp, rk)
-		c.oblige("frame", "mem:"+k, rr, cond, c.root.Pos(), "only the arrays in `modifies` change: element memory "+k)
+		eq := fmt.Sprintf("(forall ((q_fm Int)) (! (=> (and (>= q_fm 0) (<= q_fm (+ (* 4096 top0) 4095))) (= (select %s q_fm) (select %s q_fm))) :pattern ((select %s q_fm))))", post, exp, post)
+		emit("mem:"+k, cond, "only the arrays in `modifies` change: element memory "+k, eq)
 	}
 }
 
